@@ -56,9 +56,10 @@ func newSvPair(env *lifeEnv, nclients int) (*svPair, error) {
 
 func (sp *svPair) teardown() {
 	for _, c := range sp.clients {
-		c.Close()
+		c := c
+		bounded(2*time.Second, func() { c.Close() })
 	}
-	sp.srv.Close()
+	bounded(2*time.Second, func() { sp.srv.Close() })
 	sp.sock.Close()
 }
 
@@ -104,7 +105,7 @@ func runCalls(calls []*call, bound time.Duration) (allReturned bool) {
 			defer wg.Done()
 			<-start
 			atomic.StoreInt64(&c.c, stamp.Add(1))
-			res := c.f()
+			res := guard(c.f)
 			atomic.StoreInt64(&c.ret, res)
 			atomic.StoreInt64(&c.r, stamp.Add(1))
 			c.done.Store(true)
@@ -119,6 +120,15 @@ func runCalls(calls []*call, bound time.Duration) (allReturned bool) {
 	case <-time.After(bound):
 		return false
 	}
+}
+
+func anyPanic(calls []*call) (bool, string) {
+	for _, c := range calls {
+		if c.done.Load() && atomic.LoadInt64(&c.ret) == 900 {
+			return true, c.name + " panicked: " + lastPanic()
+		}
+	}
+	return false, ""
 }
 
 func describe(calls []*call) string {
@@ -180,6 +190,9 @@ func scenarioServerClose(env *lifeEnv, r *hv.Rand) {
 			v = verdict{false, sig, what}
 		}
 	}
+	if p, w := anyPanic(calls); p {
+		fail("C17:panic", w)
+	}
 	if !all {
 		fail("C17:server-call-not-released-by-close", "Server.Close was called but some call never returned: "+describe(calls))
 	} else {
@@ -232,7 +245,8 @@ func scenarioHandleDataBeforeEOF(env *lifeEnv, r *hv.Rand) {
 	arrived := sp.handles[0].VerifRecvLen()
 	common.SetVerifYield(perturbHook(r, "dc.", "h.", "sv."))
 	how := r.Intn(3)
-	var got []int
+	var gotMu sync.Mutex
+	var gotShared []int
 	var lastErr int64 = -1
 	reader := &call{name: "reader", f: func() int64 {
 		buf := make([]byte, 64)
@@ -241,11 +255,13 @@ func scenarioHandleDataBeforeEOF(env *lifeEnv, r *hv.Rand) {
 			if err != nil {
 				return lcode(err)
 			}
+			gotMu.Lock()
 			if k == 1 {
-				got = append(got, int(buf[0]))
+				gotShared = append(gotShared, int(buf[0]))
 			} else {
-				got = append(got, -k)
+				gotShared = append(gotShared, -k)
 			}
+			gotMu.Unlock()
 		}
 	}}
 	closer := &call{name: []string{"Handle.Close", "Server.Close", "Handle.Close+SetReadDeadline"}[how], f: func() int64 {
@@ -258,11 +274,14 @@ func scenarioHandleDataBeforeEOF(env *lifeEnv, r *hv.Rand) {
 		sp.handles[0].SetReadDeadline(time.Now().Add(time.Hour))
 		return lcode(sp.handles[0].Close())
 	}}
-	all := runCalls([]*call{reader, closer}, 5*time.Second)
+	all := runCalls([]*call{reader, closer}, 3*time.Second)
 	common.SetVerifYield(nil)
 	if all {
 		lastErr = reader.ret
 	}
+	gotMu.Lock()
+	got := append([]int(nil), gotShared...)
+	gotMu.Unlock()
 	sp.teardown()
 	v := verdict{true, "", ""}
 	if !all {
